@@ -276,7 +276,7 @@ class TextFileProvider(FileProvider):
             # Pre-filtering ONLY when collecting data
             log.debug("Pre-filtering %s", self.relative_path)
             args.append(
-                ["grep", "-F", "-e", "\n".join(sorted(self._filters.keys(), reverse=True)), self.path]
+                ["grep", "-a", "-F", "-e", "\n".join(sorted(self._filters.keys(), reverse=True)), self.path]
             )
 
         return args
@@ -410,7 +410,7 @@ class CommandOutputProvider(ContentProvider):
 
         if self.split and self._filters:
             log.debug("Pre-filtering  %s", self.relative_path)
-            command.append(["grep", "-F", "-e", "\n".join(sorted(self._filters.keys(), reverse=True))])
+            command.append(["grep", "-a", "-F", "-e", "\n".join(sorted(self._filters.keys(), reverse=True))])
 
         return command
 
